@@ -171,6 +171,22 @@ func runC12Deterministic(c *core.Ctx) {
 		}
 		c.Stat("sessions_started_by_truncating_recovery", 1)
 	}
+	if fsk == core.FSOS || fsk == core.FSOSMMap {
+		// a Backup that fails (its destination lies below a regular file) must leave the source usable: the next
+		// Compact must not be refused as busy and the next Backup must work
+		blocker := env.Sub("not-a-directory")
+		if err := env.WriteFile(blocker, []byte("x")); err == nil {
+			if err := db.Backup(filepath.Join(blocker, "backup")); err == nil {
+				c.Violation("backup-error", "Backup into a path below a regular file returned nil", nil)
+				return
+			}
+			c.Stat("failing_backups", 1)
+			if _, err := db.Compact(); pogreb.VerifIsBusy(err) {
+				c.Violation("source-affected", fmt.Sprintf("after a Backup that failed, Compact is refused as busy: the failed backup left the maintenance lock held (fs %s)", fsk), map[string]interface{}{"fs": fsk})
+				return
+			}
+		}
+	}
 	nb := 3 + rng.Intn(3)
 	for b := 0; b < nb; b++ {
 		for i := 0; i < 30+rng.Intn(120); i++ {
